@@ -59,4 +59,44 @@ inductive Conv | start | «end» | middle
 deriving DecidableEq, Repr
 
 end meas
+/-! ## The Wiener process handed to feedback coefficients (`sode/_noise.py`, `Wiener.__call__`)
+
+The object keeps the index of the last query and the value it returned; a later query adds the increments
+in between, an earlier one starts again from zero.  `dW k` is the increment of step `k` (the noise table
+is extended on demand, which the model abstracts as a total function). -/
+section wienerobj
+variable {R : Type} [Add R] [OfNat R 0]
+
+structure WState (R : Type) where
+  idxLast : Nat
+  lastW : R
+deriving Repr
+
+/-- `dW a + … + dW (a+n-1)` -/
+def seg (dW : Nat → R) (a : Nat) : Nat → R
+  | 0 => 0
+  | n + 1 => seg dW a n + dW (a + n)
+
+/-- the Wiener process at step `n`: the sum of the first `n` increments -/
+def wienerAt (dW : Nat → R) (n : Nat) : R := seg dW 0 n
+
+/-- one call `W(t)` with `idx = round((t - t0)/dt)`: new state and returned value -/
+def WState.call (dW : Nat → R) (s : WState R) (idx : Nat) : WState R × R :=
+  let s' : WState R := if s.idxLast > idx then ⟨0, 0⟩ else s
+  let w := s'.lastW + seg dW s'.idxLast (idx - s'.idxLast)
+  (⟨idx, w⟩, w)
+
+/-- the rule before the repair: the sum ran up to and including `idx` -/
+def WState.callOld (dW : Nat → R) (s : WState R) (idx : Nat) : WState R × R :=
+  let s' : WState R := if s.idxLast > idx then ⟨0, 0⟩ else s
+  let w := s'.lastW + seg dW s'.idxLast (idx + 1 - s'.idxLast)
+  (⟨idx, w⟩, w)
+
+/-- the values returned along a history of calls -/
+def runCalls (call : WState R → Nat → WState R × R) (s : WState R) : List Nat → List R
+  | [] => []
+  | i :: is => (call s i).2 :: runCalls call (call s i).1 is
+
+end wienerobj
+
 end Qv.C17
